@@ -5,48 +5,80 @@ use std::sync::Mutex;
 #[derive(ConfigProfile, Debug, Clone, Copy, PartialEq)]
 enum Profile { Dev, Prod }
 
+/// custom and default names mixed, in both orders: every variant must map to its own name, both ways
+#[derive(ConfigProfile, Debug, Clone, Copy, PartialEq)]
+enum Mixed { #[px(profile = "local")] Development, Staging, #[px(profile = "live")] Production, QaTeam }
+
 #[derive(serde::Deserialize, Debug, PartialEq)]
 #[serde(deny_unknown_fields)]
 struct Nested { a: i64, b: i64, c: i64 }
 #[derive(serde::Deserialize, Debug, PartialEq)]
 #[serde(deny_unknown_fields)]
-struct Config { base_only: i64, profile_wins: i64, env_wins: i64, nested: Nested }
+struct Config { base_only: i64, profile_wins: i64, env_wins: i64, nested: Nested, list: Vec<String> }
 
 static ENV: Mutex<()> = Mutex::new(());
 fn dir(tag: &str) -> std::path::PathBuf {
     let d = std::env::temp_dir().join(format!("verif-c18-{}-{tag}", std::process::id()));
     std::fs::create_dir_all(&d).unwrap();
-    std::fs::write(d.join("base.yml"), "base_only: 1\nprofile_wins: 1\nenv_wins: 1\nnested:\n  a: 1\n  b: 1\n  c: 1\n").unwrap();
-    std::fs::write(d.join("dev.yml"), "profile_wins: 2\nenv_wins: 2\nnested:\n  b: 2\n  c: 2\n").unwrap();
+    std::fs::write(d.join("base.yml"), "base_only: 1\nprofile_wins: 1\nenv_wins: 1\nnested:\n  a: 1\n  b: 1\n  c: 1\nlist: [base1, base2]\n").unwrap();
+    std::fs::write(d.join("dev.yml"), "profile_wins: 2\nenv_wins: 2\nnested:\n  b: 2\n  c: 2\nlist: [dev1]\n").unwrap();
     std::fs::write(d.join("prod.yml"), "profile_wins: 20\n").unwrap();
     d
 }
-fn clear() { for (k, _) in std::env::vars() { if k.starts_with("PX_") { unsafe { std::env::remove_var(k) } } } }
+const DECOYS: [&str; 6] = ["PROFILE", "APP_PROFILE", "PAVEX_PROFILE", "PXPROFILE", "px_profile", "APP_ENV"];
+fn clear() {
+    for (k, _) in std::env::vars() { if k.starts_with("PX_") { unsafe { std::env::remove_var(k) } } }
+    // look-alike variables hold a VALID profile name: only PX_PROFILE may select the profile
+    for d in DECOYS { unsafe { std::env::set_var(d, "dev") } }
+}
 
 #[test]
 fn env_over_profile_over_base_per_key() {
-    let _g = ENV.lock().unwrap(); clear();
+    let _g = ENV.lock().unwrap_or_else(|e| e.into_inner()); clear();
     unsafe { std::env::set_var("PX_ENV_WINS", "3"); std::env::set_var("PX_NESTED__C", "3"); std::env::set_var("PX_PROFILE", "dev"); }
     let d = dir("a");
     // explicit profile
     let c: Config = ConfigLoader::new().profile(Profile::Dev).configuration_dir(&d).load().unwrap();
-    assert_eq!(c, Config { base_only: 1, profile_wins: 2, env_wins: 3, nested: Nested { a: 1, b: 2, c: 3 } });
+    assert_eq!(c, Config { base_only: 1, profile_wins: 2, env_wins: 3, nested: Nested { a: 1, b: 2, c: 3 }, list: vec!["dev1".into()] });
     // profile selected by PX_PROFILE, which is not itself a key (deny_unknown_fields would reject it)
     let c: Config = ConfigLoader::<Profile>::new().configuration_dir(&d).load().unwrap();
     assert_eq!(c.profile_wins, 2);
     unsafe { std::env::set_var("PX_PROFILE", "prod"); }
     let c: Config = ConfigLoader::<Profile>::new().configuration_dir(&d).load().unwrap();
     assert_eq!((c.profile_wins, c.env_wins, c.nested.c, c.nested.b), (20, 3, 3, 1));
+    assert_eq!(c.list, vec!["base1".to_string(), "base2".to_string()], "a key absent from the profile file comes from the base file");
     clear(); let _ = std::fs::remove_dir_all(d);
 }
 #[test]
 fn missing_profile_or_required_key_is_an_error() {
-    let _g = ENV.lock().unwrap(); clear();
+    let _g = ENV.lock().unwrap_or_else(|e| e.into_inner()); clear();
     let d = dir("b");
     assert!(ConfigLoader::<Profile>::new().configuration_dir(&d).load::<Config>().is_err(), "no PX_PROFILE must not default");
     unsafe { std::env::set_var("PX_PROFILE", "staging"); }
     assert!(ConfigLoader::<Profile>::new().configuration_dir(&d).load::<Config>().is_err(), "unknown profile must not default");
     std::fs::write(d.join("base.yml"), "profile_wins: 1\n").unwrap();
     assert!(ConfigLoader::new().profile(Profile::Dev).configuration_dir(&d).load::<Config>().is_err(), "missing required key");
+    clear(); let _ = std::fs::remove_dir_all(d);
+}
+
+#[test]
+fn derived_profiles_map_each_variant_to_its_own_name() {
+    use std::str::FromStr;
+    let want = [(Mixed::Development, "local"), (Mixed::Staging, "staging"), (Mixed::Production, "live"), (Mixed::QaTeam, "qa_team")];
+    for (v, name) in want {
+        assert_eq!(v.as_ref(), name, "{v:?}.as_ref()");
+        assert_eq!(Mixed::from_str(name).ok(), Some(v), "from_str({name:?})");
+    }
+    for bad in ["development", "production", "Staging", "", "local "] { assert!(Mixed::from_str(bad).is_err(), "from_str({bad:?}) must fail"); }
+    // and the file that is read is the variant's own
+    let _g = ENV.lock().unwrap_or_else(|e| e.into_inner()); clear();
+    let d = dir("c");
+    std::fs::write(d.join("staging.yml"), "profile_wins: 7\n").unwrap();
+    std::fs::write(d.join("local.yml"), "profile_wins: 8\n").unwrap();
+    let c: Config = ConfigLoader::new().profile(Mixed::Staging).configuration_dir(&d).load().unwrap();
+    assert_eq!(c.profile_wins, 7);
+    unsafe { std::env::set_var("PX_PROFILE", "local"); }
+    let c: Config = ConfigLoader::<Mixed>::new().configuration_dir(&d).load().unwrap();
+    assert_eq!(c.profile_wins, 8);
     clear(); let _ = std::fs::remove_dir_all(d);
 }
